@@ -23,7 +23,7 @@ LEVEL = 'translation_validation'
 TIMEOUT_MS = 30000
 
 REWRITES = ['base', 'maxneg', 'perm', 'cmp_flip', 'cmp_neg', 'eq_split', 'bounds_lin', 'bounds_norm', 'loops', 'scale',
-            'set_list', 'set_nested', 'dro']
+            'set_list', 'set_nested', 'dro', 'setb_lin', 'setb_loops', 'setb_flip']
 
 META = dict(
     functions=['rsome.lp.Vars.__le__/__ge__ (Bounds)', 'rsome.lp.VarSub.__le__/__ge__', 'rsome.lp.Affine.__le__/__ge__/__eq__/__rsub__',
@@ -49,7 +49,8 @@ def base_data(seed):
                 a1=[g() for _ in range(3)], N1=[[r.choice([0, 0.5, 1, -1]) for _ in range(2)] for _ in range(3)],
                 a2=[g() for _ in range(3)], b1=r.choice([3, 4, 5]), b2=r.choice([-4, -3]),
                 e=[r.choice([1, -1, 0.5]) for _ in range(3)], be=r.choice([0, 0.5, -0.5]),
-                rad=r.choice([1, 1.5, 2]), bound=r.choice([2, 3]), norm1=r.choice([True, False]),
+                rad=r.choice([1, 1.5, 2]), bound=r.choice([2, 3]), norm1=r.choice([True, False, False]),
+                zhi=r.choice([[0.0, 1.0], [0.0, 0.0], [1.5, 0.0], [2.0, 1.0], [-0.5, 1.0]]),
                 ldr=r.choice([True, False]), sense=r.choice(['min', 'max']))
 
 
@@ -77,10 +78,17 @@ def build(d, rw):
             y.adapt(z[0])
     # ---- uncertainty set
     rad = d['rad']
+    zhi = A(d['zhi'])
     if d['norm1']:
         setc = [rso.norm(z, 1) <= rad, z >= -1, z <= 1]
+    elif 'setb_lin' in rw:
+        setc = [1.0 * z >= -rad, 1.0 * z <= zhi]            # bounds of the set as linear constraints
+    elif 'setb_loops' in rw:
+        setc = [z[i] >= -rad for i in range(2)] + [z[i] <= float(zhi[i]) for i in range(2)]
+    elif 'setb_flip' in rw:
+        setc = [-rad <= z, zhi >= z]
     else:
-        setc = [z >= -rad, z <= A([rad, 1.0])]
+        setc = [z >= -rad, z <= zhi]
     if 'set_nested' in rw:
         set_args = (setc[:1], tuple(setc[1:]))       # a list and a tuple as separate arguments
     elif 'set_list' in rw:
